@@ -100,6 +100,13 @@ type Case struct {
 	// the id but not the annotation of the first); 2 only the first node
 	// annotated; 3 all annotated, consistently per id.
 	Annot int
+	// Tags2 (optional): after the first answer the same Way value gets this
+	// tag list and is asked again.
+	Tags2 []T
+	// MarkUninteresting: while the way is classified, every key of its tags is
+	// listed in the package's exported osm.UninterestingTags map (which only
+	// steers "interesting tag" decisions, never this one).
+	MarkUninteresting bool
 }
 
 func (c Case) way() *osm.Way {
@@ -141,9 +148,39 @@ func ref(c Case) bool {
 }
 
 func checkWay(c Case) error {
-	got, want := c.way().Polygon(), ref(c)
+	if c.MarkUninteresting {
+		var added []string
+		for _, t := range append(append([]T{}, c.Tags...), c.Tags2...) {
+			if !osm.UninterestingTags[t.K] {
+				osm.UninterestingTags[t.K] = true
+				added = append(added, t.K)
+			}
+		}
+		defer func() {
+			for _, k := range added {
+				delete(osm.UninterestingTags, k)
+			}
+		}()
+	}
+	w := c.way()
+	got, want := w.Polygon(), ref(c)
 	if got != want {
-		return harness.Failf("C18/way-classification", "Way.Polygon() = %v, the published rules give %v for refs %v tags %v", got, want, c.Refs, c.Tags)
+		return harness.Failf("C18/way-classification", "Way.Polygon() = %v, the published rules give %v for refs %v tags %v (keys listed as uninteresting: %v)", got, want, c.Refs, c.Tags, c.MarkUninteresting)
+	}
+	if c.Tags2 != nil {
+		// the same value, and a struct copy of it, with other tags
+		c2 := c
+		c2.Tags = c.Tags2
+		w2 := c2.way()
+		cp := *w
+		cp.Tags = w2.Tags
+		w.Tags = w2.Tags
+		if got, want := w.Polygon(), ref(c2); got != want {
+			return harness.Failf("C18/way-classification", "after replacing the tags of a way that was already classified (%v => %v): Polygon() = %v, the rules give %v", c.Tags, c.Tags2, got, want)
+		}
+		if got, want := cp.Polygon(), ref(c2); got != want {
+			return harness.Failf("C18/way-classification", "struct copy of a classified way with other tags (%v => %v): Polygon() = %v, the rules give %v", c.Tags, c.Tags2, got, want)
+		}
 	}
 	return nil
 }
@@ -283,23 +320,35 @@ func TestRandomTagSets(t *testing.T) {
 	allKeys = append(allKeys, "area", "name", "source", "created_by", "note", "type")
 	harness.Run(t, harness.Spec[Case]{
 		Name: "random-tag-sets", N: 20000,
-		Rule: "random tag sets (unique keys) of 0..7 tags over the rule keys, area and unrelated keys with values from listed/unlisted/no/empty, in random order, a quarter padded with 1..60 unrelated tags (around the number of rules), on closed and open node lists whose way nodes carry no, partial, per-position or per-id annotations; oracle = rule text on the tag map and invariance of the answer under a drawn permutation of the tags; non-trivial = closed way with >3 refs and at least two rule keys present",
+		Rule: "random tag sets (unique keys) of 0..7 tags over the rule keys, area and unrelated keys with values from listed/unlisted/no/empty, in random order, a quarter padded with 1..60 unrelated tags (around the number of rules), on closed and open node lists whose way nodes carry no, partial, per-position or per-id annotations; a third of the ways get a second tag list after their first answer (same value and a struct copy asked again), a quarter are classified while all their keys are listed in osm.UninterestingTags; oracle = rule text on the tag map and invariance of the answer under a drawn permutation of the tags; non-trivial = closed way with >3 refs and at least two rule keys present",
 		Gen: func(t *rapid.T) Case {
 			c := Case{Refs: rapid.SampledFrom(nodeShapes).Draw(t, "shape")}
 			if rapid.IntRange(0, 3).Draw(t, "closed") != 0 {
 				c.Refs = rapid.SampledFrom([][]int64{{1, 2, 3, 1}, {5, 6, 7, 8, 5}, {1, 2, 3, 4, 5, 6, 1}}).Draw(t, "closedShape")
 			}
-			keys := rapid.SliceOfNDistinct(rapid.SampledFrom(allKeys), 0, 7, func(s string) string { return s }).Draw(t, "keys")
-			for _, k := range keys {
-				var pool []string
-				for _, r := range rules {
-					if r.key == k {
-						pool = append(pool, r.values...)
+			drawTags := func(l string) []T {
+				var out []T
+				keys := rapid.SliceOfNDistinct(rapid.SampledFrom(allKeys), 0, 7, func(s string) string { return s }).Draw(t, l+"keys")
+				for _, k := range keys {
+					var pool []string
+					for _, r := range rules {
+						if r.key == k {
+							pool = append(pool, r.values...)
+						}
 					}
+					pool = append(pool, "yes", "no", "", "unlisted_value", "other")
+					out = append(out, T{k, rapid.SampledFrom(pool).Draw(t, l+"v")})
 				}
-				pool = append(pool, "yes", "no", "", "unlisted_value", "other")
-				c.Tags = append(c.Tags, T{k, rapid.SampledFrom(pool).Draw(t, "v")})
+				return out
 			}
+			c.Tags = drawTags("")
+			if rapid.IntRange(0, 2).Draw(t, "second") == 0 {
+				c.Tags2 = drawTags("2")
+				if c.Tags2 == nil {
+					c.Tags2 = []T{}
+				}
+			}
+			c.MarkUninteresting = rapid.IntRange(0, 3).Draw(t, "markUninteresting") == 0
 			if rapid.IntRange(0, 3).Draw(t, "filler?") == 0 {
 				c.Filler = rapid.SampledFrom([]int{1, 5, 15, 19, 20, 24, 25, 26, 27, 30, 60}).Draw(t, "filler")
 			}
@@ -311,7 +360,7 @@ func TestRandomTagSets(t *testing.T) {
 				return err
 			}
 			// permutation invariance
-			p := Case{Refs: c.Refs, Filler: c.Filler, Annot: c.Annot}
+			p := Case{Refs: c.Refs, Filler: c.Filler, Annot: c.Annot, MarkUninteresting: c.MarkUninteresting}
 			for i := len(c.Tags) - 1; i >= 0; i-- {
 				p.Tags = append(p.Tags, c.Tags[i])
 			}
